@@ -208,6 +208,21 @@ fn oracle_tick(t: &mut Toks, tier: Tier) -> Result<OracleOut, String> {
                 workers = c.workers;
                 label = "order";
             }
+            3 if set.len() >= 2 => {
+                // re-enqueue an already pending candidate at the moment exactly p distinct candidates are
+                // pending, for every power-of-two boundary p (and its neighbours) up to the batch size
+                let bounds = [1usize, 2, 3, 4, 7, 8, 9, 15, 16, 17, 31, 32, 33, 63, 64, 65, 127, 128, 129, 255, 256, 257, 511, 512, 513, 1023, 1024, 1025];
+                let first = set[0].clone();
+                v = Vec::new();
+                for (i, x) in set.iter().enumerate() {
+                    v.push(x.clone());
+                    if bounds.contains(&(i + 1)) {
+                        v.push(first.clone());
+                    }
+                }
+                workers = c.workers;
+                label = "repeat-at-queue-size-boundary";
+            }
             _ => {
                 rng.shuffle(&mut v);
                 if r % 2 == 1 && !v.is_empty() {
